@@ -77,8 +77,9 @@ def prog_constants(p, j=1, max_hist=4, max_cmds=3, unlocked_bug=False):
                                   for ver in vers])) for df, vers in rules.items()])
     d['InitFiles'] = sset([s(x) for x in p['init']])
     d['J'] = str(j)
-    d['Cmds'] = sset([rec({'kind': s(k), 'targs': seq([s(t) for t in ts]), 'keep': val(bool(keep))})
-                      for (k, ts, keep) in p['cmds']])
+    d['Cmds'] = sset([rec({'kind': s(c[0]), 'targs': seq([s(t) for t in c[1]]), 'keep': val(bool(c[2])),
+                           'j': str(c[3] if len(c) > 3 else 1)})
+                      for c in p['cmds']])
     d['UserFiles'] = sset([s(x) for x in p.get('user', [])])
     d['RmFiles'] = sset([s(x) for x in p.get('rm', [])])
     d['DoEdits'] = sset([s(x) for x in p.get('doedits', [])])
@@ -374,6 +375,91 @@ def fail_diamond():
         'user': [], 'rm': [], 'doedits': ['A.do'],
         'bounds': (4, 3),
     }
+
+
+# parallel builds (redo -jN) ------------------------------------------------------------------
+def par_diamond(j=2):
+    return {
+        'name': 'par_diamond%d' % j,
+        'plain': ['s', 'sh', 'l', 'r', 'top'],
+        'rules': {'top.do': [{'top': [ifchange('l', 'r'), out('stdout', 'l', 'r')]}],
+                  'l.do': [{'l': [ifchange('sh', 's'), out('stdout', 'sh', 's')]}],
+                  'r.do': [{'r': [ifchange('sh'), out('file', 'sh')]}],
+                  'sh.do': [{'sh': [ifchange('s'), out('stdout', 's')]}]},
+        'init': ['s', 'top.do', 'l.do', 'r.do', 'sh.do'],
+        'cmds': [('redo', ['top'], False, j), ('redo', ['l', 'r'], False, j), ('ifchange', ['top'], False, 1)],
+        'user': ['s'], 'rm': ['sh'], 'doedits': [],
+        'bounds': (3, 2),
+    }
+
+
+def par_fan(j=3):
+    return {
+        'name': 'par_fan%d' % j,
+        'plain': ['s', 'a', 'b', 'c'],
+        'rules': {'a.do': [{'a': [ifchange('s'), out('stdout', 's')]}],
+                  'b.do': [{'b': [ifchange('s'), out('file', 's')]}],
+                  'c.do': [{'c': [ifchange('a'), out('stdout', 'a')]}]},
+        'init': ['s', 'a.do', 'b.do', 'c.do'],
+        'cmds': [('redo', ['a', 'b', 'c'], False, j), ('redo', ['c', 'a'], False, 2)],
+        'user': ['s'], 'rm': [], 'doedits': [],
+        'bounds': (3, 2),
+    }
+
+
+def par_shared(kind):
+    """two dependents of one checksummed / always target, built in parallel"""
+    shared = [ifchange('s'), out('stdout', 's')]
+    if kind == 'stamp':
+        shared = shared + [stamp()]
+    else:
+        shared = [always()] + shared
+    return {
+        'name': 'par_shared_' + kind,
+        'plain': ['s', 'x', 'p', 'q'],
+        'rules': {'x.do': [{'x': shared}],
+                  'p.do': [{'p': [ifchange('x'), out('stdout', 'x')]}],
+                  'q.do': [{'q': [ifchange('x'), out('file', 'x')]}]},
+        'init': ['s', 'x.do', 'p.do', 'q.do'],
+        'cmds': [('redo', ['p', 'q'], False, 2), ('redo', ['q', 'p'], False, 2)],
+        'user': ['s'], 'rm': [], 'doedits': [],
+        'bounds': (3, 2),
+    }
+
+
+def par_fail():
+    return {
+        'name': 'par_fail',
+        'plain': ['s', 'bad', 'ok', 'ok2'],
+        'rules': {'bad.do': [{'bad': [ifchange('s'), exit_(4)]}],
+                  'ok.do': [{'ok': [ifchange('s'), out('stdout', 's')]}],
+                  'ok2.do': [{'ok2': [ifchange('ok'), out('stdout', 'ok')]}]},
+        'init': ['s', 'bad.do', 'ok.do', 'ok2.do'],
+        'cmds': [('redo', ['bad', 'ok', 'ok2'], True, 2), ('redo', ['ok', 'bad', 'ok2'], False, 2)],
+        'user': [], 'rm': [], 'doedits': [],
+        'bounds': (2, 2),
+    }
+
+
+def par_unlocked():
+    """two parallel siblings each re-checking (out of band) the same checksummed target"""
+    return {
+        'name': 'par_unlocked',
+        'plain': ['s', 'x', 'p', 'q', 't'],
+        'rules': {'x.do': [{'x': [ifchange('s'), out('stdout', 's'), stamp()]}],
+                  'p.do': [{'p': [ifchange('x'), out('stdout', 'x')]}],
+                  'q.do': [{'q': [ifchange('x'), out('stdout', 'x')]}],
+                  't.do': [{'t': [ifchange('p', 'q'), out('stdout', 'p', 'q')]}]},
+        'init': ['s', 'x.do', 'p.do', 'q.do', 't.do'],
+        'cmds': [('redo', ['t'], False, 2)],
+        'user': ['s'], 'rm': [], 'doedits': [],
+        'bounds': (3, 2),
+    }
+
+
+def parallel_family():
+    return [complete(p) for p in [par_diamond(2), par_fan(3), par_shared('stamp'), par_shared('always'), par_fail(),
+                                  par_unlocked()]]
 
 
 FAMILY_DEEP = [fail_diamond, override2, stamp_toggle, stamped_deep, ifcreate_deep, do_recreate]
